@@ -14,6 +14,7 @@ import (
 //	quad : 0.5 x'Ax - b'x           (A symmetric positive definite, row major)
 //	rosen: sum_i (a - x_i)^2 + b (x_{i+1} - x_i^2)^2      (n = 1: (a - x)^2)
 //	sep  : sum_i c_i (x_i - d_i)^2 + e_i (x_i - d_i)^4    (c_i = e_i = 0: flat coordinate)
+//	poly4: sum_i a_i u + c_i u^2 + b_i u^3 + e_i u^4, u = x_i - d_i
 //	poly : scalar c0 + c1 a + c2 a^2 + c3 a^3 + c4 a^4    (line search)
 type ObjSpec struct {
 	Kind string    `json:"kind"`
@@ -81,6 +82,24 @@ func evalPure(o *ObjSpec, x ad.ConstVector) ad.MagicScalar {
 			s.Add(s, t)
 			s.Add(s, u)
 		}
+	case "poly4": // sum_i a_i u + c_i u^2 + b_i u^3 + e_i u^4, u = x_i - d_i (round 3: newton_min)
+		for i := 0; i < n; i++ {
+			u := ad.NullReal64()
+			p := ad.NullReal64()
+			t := ad.NullReal64()
+			u.Sub(x.ConstAt(i), cf(o.D[i]))
+			t.Mul(u, cf(o.A[i]))
+			s.Add(s, t)
+			p.Mul(u, u)
+			t.Mul(p, cf(o.C[i]))
+			s.Add(s, t)
+			p.Mul(p, u)
+			t.Mul(p, cf(o.B[i]))
+			s.Add(s, t)
+			p.Mul(p, u)
+			t.Mul(p, cf(o.E[i]))
+			s.Add(s, t)
+		}
 	default:
 		panic("unknown objective kind " + o.Kind)
 	}
@@ -115,6 +134,7 @@ type Ev struct {
 	YV    []float64   // evalv/hookv: y (RunRoot: f(x); RunCrit: gradient)
 	J     [][]float64 // evalv/hookv: Jacobian / Hessian
 	Panic bool        // dir: the solver panicked (Err: it returned an error; G: the direction)
+	Idx   int         // saga: sample index j (sev) / epoch (shook)
 }
 
 type capSentinel struct{}
